@@ -578,7 +578,7 @@ class Circuit:
         group will be ignored.
         """
         # Convert circuit spec and then assign to attribute
-        new_spec = compress_mode_swaps(deepcopy(self.__circuit_spec))
+        new_spec = compress_mode_swaps(self._deepcopy_spec())
         self.__circuit_spec = new_spec
 
     def remove_non_adjacent_bs(self) -> None:
@@ -587,7 +587,7 @@ class Circuit:
         with a mode swap and adjacent beam splitters.
         """
         # Convert circuit spec and then assign to attribute
-        spec = deepcopy(self.__circuit_spec)
+        spec = self._deepcopy_spec()
         new_spec = convert_non_adj_beamsplitters(spec)
         self.__circuit_spec = new_spec
 
@@ -672,6 +672,14 @@ class Circuit:
             m + 1 if m >= mode else m for m in self.__internal_modes
         ]
         return new_circuit_spec
+
+    def _deepcopy_spec(self) -> list[Component]:
+        """
+        Returns a deep copy of the circuit spec in which the Parameter objects
+        are still the original ones, so they remain linked to the circuit.
+        """
+        memo = {id(p): p for p in self.get_all_params()}
+        return deepcopy(self.__circuit_spec, memo)
 
     def _freeze_params(self, circuit_spec: list[Component]) -> list[Component]:
         """
